@@ -28,8 +28,12 @@ EmptyS == [time |-> [n \in Node |-> NoT], E |-> {}, tid |-> [n \in Node |-> None
            cust |-> [n \in Node |-> None], pos |-> [n \in Node |-> NoPos],
            area |-> [n \in Node |-> -1], iou |-> [e \in Node \X Node |-> NoIoU],
            seg |-> [q \in Pix |-> 0], act |-> DefaultAct, reg |-> DefaultReg,
+           shp |-> [k \in ShapeKeys |-> [n \in Node |-> NoShape]], ecust |-> [e \in Node \X Node |-> None],
            U |-> <<>>, R |-> <<>>]
 
+\* feature masks offered to enable / disable (bits: area iou circ lid pos tid perim axes, 256 = unknown)
+SwitchMasks == IF HasSeg THEN {1, 2, 4, 8, 3, 5, 6, 12, 16, 64, 128, 15, 256, 257}
+               ELSE {8, 32, 40, 1, 256, 264}
 \* the call alphabet offered in state s (refused calls included)
 Ids(s) == 1..(IF s.maxT + 2 <= MaxId THEN s.maxT + 2 ELSE MaxId)
 Calls(s) ==
@@ -42,12 +46,15 @@ Calls(s) ==
     \cup (IF KDelEdge \in Kinds THEN {<<KDelEdge, u, v, 0, 0>> : u \in Node, v \in Node} ELSE {})
     \cup (IF KDelNode \in Kinds THEN {<<KDelNode, n, 0, 0, 0>> : n \in Node} ELSE {})
     \cup (IF KSwap \in Kinds THEN {<<KSwap, a, b, 0, 0>> : a \in Node, b \in Node} ELSE {})
-    \cup (IF KSetAttr \in Kinds THEN {<<KSetAttr, n, k, 1, 0>> : n \in Node, k \in 1..4} ELSE {})
+    \cup (IF KSetAttr \in Kinds THEN {<<KSetAttr, n, k, 1, 0>> : n \in Node, k \in 1..(IF HasSeg THEN 8 ELSE 4)} ELSE {})
     \cup (IF KPaint \in Kinds /\ HasSeg
             THEN \* track id and force only matter when the stroke creates a node
                  {<<KPaint, t, b, v, 2 * i + f>> : t \in Times, b \in 1..(2 ^ P - 1),
                                                     v \in {w \in 1..N : ~Has(s, w)}, i \in {1, s.maxT + 1}, f \in {0, 1}}
                  \cup {<<KPaint, t, b, v, 2>> : t \in Times, b \in 1..(2 ^ P - 1), v \in {0} \cup Present(s)}
+            ELSE {})
+    \cup (IF KEnable \in Kinds
+            THEN {<<KEnable, m, r, 0, 0>> : m \in SwitchMasks, r \in {0, 1}} \cup {<<KDisable, m, 0, 0, 0>> : m \in SwitchMasks}
             ELSE {})
     \cup (IF Hist THEN {<<KUndo, 0, 0, 0, 0>>, <<KRedo, 0, 0, 0, 0>>} ELSE {})
 
@@ -66,6 +73,8 @@ ExpCalls(s) ==
     \* strokes of at most two pixels explore; all strokes are fired
     \cup {c \in Calls(s) : c[1] = KPaint /\ Cardinality(Stroke(c[2], c[3])) <= 2}
     \cup (IF KSetAttr \in Kinds THEN {<<KSetAttr, 1, 1, 1, 0>>} ELSE {})
+    \* switching explores with recomputation only (stale values after recompute=False are allowed)
+    \cup {c \in Calls(s) : (c[1] = KEnable /\ c[3] = 1 /\ c[2] < 256) \/ (c[1] = KDisable /\ c[2] < 256 /\ ~Bit(c[2], 5))}
 
 
 Trim(s) == IF Hist THEN s ELSE [s EXCEPT !.U = <<>>, !.R = <<>>]
@@ -100,7 +109,7 @@ Rank(X, i) == Cardinality({j \in X : j <= i})
 UsedL(s) == {s.lid[n] : n \in Present(s)}
 View  == IF LookupOK(Obs(S))
          THEN << S.time, S.E, [n \in Node |-> Rank(UsedT(S), S.tid[n])], [n \in Node |-> Rank(UsedL(S), S.lid[n])],
-                 S.maxT \in UsedT(S), S.maxL \in UsedL(S), S.cust, S.pos, S.area, S.iou, S.seg, S.act, S.reg,
+                 S.maxT \in UsedT(S), S.maxL \in UsedL(S), S.cust, S.pos, S.area, S.iou, S.seg, S.act, S.reg, S.shp, S.ecust,
                  IF Hist THEN <<S.U, S.R>> ELSE <<>> >>
          ELSE << S >>
 
@@ -123,6 +132,7 @@ Inv_All == \A x \in AllX :
     /\ Chk("C01", P_C01(x), x) /\ Chk("C03", P_C03(x), x) /\ Chk("C04", P_C04(x), x)
     /\ Chk("C05", P_C05(x), x) /\ Chk("C06", P_C06(x), x) /\ Chk("C07", P_C07(x), x)
     /\ Chk("C08", P_C08(x), x) /\ Chk("C09", P_C09(x), x) /\ Chk("C11", P_C11(x), x)
+    /\ Chk("C10", P_C10(x), x)
     /\ Chk("C20", P_C20(x), x) /\ Chk("UR", P_URValid(x), x)
 \* single-property variants (used to attribute a design-level failure)
 Inv_C01 == \A x \in AllX : P_C01(x)
